@@ -1445,6 +1445,126 @@ example : (euler intCarrier exM (fun k => (k : Int)) 0 3).isSome = true := by de
 raw-float run of `C04_witness_raw_keys` takes 5 -/
 example : runVal intCarrier (natTS (fun _ => (0 : Int))) 1 (compile wM) 40 [] 0 4 = some 4 := by decide +kernel
 
+
+/-! ### Wave 5: the IR builder `StockExpressions`/`JoinedExpression` for ANY numbers of inflows and outflows -/
+
+section builder
+open Bptk.Py
+
+theorem renderS_joinedS (a : String) (as : List String) :
+    renderS (joinedS (a :: as)) = pr (sumPy .prev (memoPy a .prev) as) := by
+  rw [pr_sumPy]
+  induction as generalizing a with
+  | nil => simp [joinedS, renderS]
+  | cons b bs ih => simp [joinedS, renderS, ih b]
+
+/-- **the builder's text, all n and m**: the `sum` node built for any lists of inflows and outflows prints to the intended
+net-flow text — inflows left to right, minus the PARENTHESISED sum of the outflows (only outflows: `-1 * ( … )`) -/
+theorem renderS_sumS (ins outs : List String) : renderS (sumS ins outs) = pr (netPyP ins outs) := by
+  match ins, outs with
+  | [], [] => simp [sumS, sumSWith, renderS, netPyP, pr]
+  | i :: is, [] => simp [sumS, sumSWith, renderS, netPyP, pr, renderS_joinedS]
+  | [], o :: os => simp [sumS, sumSWith, renderS, netPyP, pr, renderS_joinedS]
+  | i :: is, o :: os => simp [sumS, sumSWith, renderS, netPyP, pr, renderS_joinedS]
+
+theorem stockToks_eq (s : String) (init : Py) (ins outs : List String) :
+    stockToks s (pr init) (renderS (sumS ins outs)) = pr (skelPyP s init ins outs) := by
+  rw [renderS_sumS]
+  simp [stockToks, skelPyP, pr, selfAttr]
+
+/-- **builder → text → tree → code, all n and m.** For every stock index, every (well-levelled) initial-value text and
+ANY lists of inflows and outflows: the tokens emitted for the IR that `StockExpressions` builds parse (A1) to the
+parenthesised skeleton; every tree the executable parser returns for them denotes the stock code
+`ifStart init (memo s prev + dt * netTm ins outs)` — which is `compileElem` of the stock, the code whose memoised run
+`xmile_run_eq_euler` proves Euler-exact and whose net flow `net_ok` evaluates to `(Σ inflows) − (Σ outflows)`
+(only outflows: `-1 * Σ outflows`). -/
+theorem builder_stock_text (s : Nat) (init : Py) (hw : WLb 0 init = true) (it : Tm String)
+    (hinit : tmOfPy nameIx (erase init) = some it) (ins outs : List Nat) :
+    let toks := stockToks (nmG s) (pr init) (renderS (sumS (ins.map nmG) (outs.map nmG)))
+    Parses toks (skelPyP (nmG s) init (ins.map nmG) (outs.map nmG)) ∧
+    tmOfPy nameIx (erase (skelPyP (nmG s) init (ins.map nmG) (outs.map nmG))) = some (stockTm s it ins outs) ∧
+    ∀ p, parse toks = some p → tmOfPy nameIx (erase p) = some (stockTm s it ins outs) := by
+  intro toks
+  have e : toks = pr (skelPyP (nmG s) init (ins.map nmG) (outs.map nmG)) := stockToks_eq _ _ _ _
+  rw [e]
+  exact stock_text_denotes s init hw it hinit ins outs
+
+theorem compileElem_stock {α : Type} (n : Nat) (init : Ex α) (ins outs : List Nat) :
+    compileElem n (.stock init ins outs) = stockTm n (cEx .cur init) ins outs := rfl
+
+/-- a successful probe obligation: every probed stock is, node for node, the model's IR and, token for token, the model's
+text, hence (general theorem above) parses to the skeleton -/
+theorem builder_sound (ps : List BProbe) (h : builderOK ps = true) :
+    ∀ e ∈ ps, e.ir = sumS e.ins e.outs ∧ e.toks = pr (skelPyP e.s (.num "7.5") e.ins e.outs) ∧
+      Parses e.toks (skelPyP e.s (.num "7.5") e.ins e.outs) := by
+  intro e he
+  simp only [builderOK, Bool.and_eq_true, List.all_eq_true] at h
+  have h1 := h.1 e he
+  simp only [bprobeOK, Bool.and_eq_true, decide_eq_true_eq] at h1
+  have ht : e.toks = pr (skelPyP e.s (.num "7.5") e.ins e.outs) := by
+    rw [h1.2, h1.1]
+    exact stockToks_eq e.s (.num "7.5") e.ins e.outs
+  refine ⟨h1.1, ht, ?_⟩
+  rw [ht]
+  exact skelPyP_parses e.s (.num "7.5") (by decide) e.ins e.outs
+
+/-! #### Negation witness: the only-outflows branch without the inner `()` node -/
+
+theorem sumTm_cons_head {α : Type} (te : TE) (acc : Tm α) (n : Nat) (ns : List Nat) :
+    ∃ a b, sumTm te acc (n :: ns) = .bin .add a b := by
+  induction ns generalizing acc n with
+  | nil => exact ⟨acc, .memo n te, rfl⟩
+  | cons m ms ih => simp only [sumTm] at ih ⊢; exact ih _ m
+
+/-- the tree the text of the defective builder denotes: `-1 * o1` is the FIRST summand -/
+def bareOutPy (o1 : String) (os : List String) : Py :=
+  .paren (sumPy .prev (.bin .mul (.neg (.num "1")) (memoPy o1 .prev)) os)
+
+/-- **witness, all m ≥ 2**: without the `()` node around the joined outflows the text of the only-outflows branch parses to
+`( -1 * o1 + o2 + … )`, which denotes `(-1 * o1) + o2 + …` — not `-1 * (o1 + o2 + …)` -/
+theorem bare_outflows_witness (o1 o2 : Nat) (os : List Nat) :
+    let outs := (o1 :: o2 :: os).map nmG
+    renderS (sumSWith false [] outs) = pr (bareOutPy (nmG o1) ((o2 :: os).map nmG)) ∧
+    Parses (renderS (sumSWith false [] outs)) (bareOutPy (nmG o1) ((o2 :: os).map nmG)) ∧
+    tmOfPy nameIx (erase (bareOutPy (nmG o1) ((o2 :: os).map nmG)))
+      = some (sumTm .prev (.bin .mul (.int (-1)) (.memo o1 .prev)) (o2 :: os)) ∧
+    sumTm .prev (.bin .mul (.int (-1)) (.memo o1 .prev)) (o2 :: os) ≠ (netTm [] (o1 :: o2 :: os) : Tm String) := by
+  intro outs
+  have hr : renderS (sumSWith false [] outs) = pr (bareOutPy (nmG o1) ((o2 :: os).map nmG)) := by
+    simp only [outs, List.map_cons, sumSWith, bareOutPy, renderS, Bool.false_eq_true, if_false]
+    rw [renderS_joinedS]
+    simp [pr, pr_sumPy]
+  have hwl : WLb 0 (bareOutPy (nmG o1) ((o2 :: os).map nmG)) = true := by
+    have := sumPy_wl .prev ((o2 :: os).map nmG) (.bin .mul (.neg (.num "1")) (memoPy (nmG o1) .prev))
+      (by simp [WLb, memoPy_wl, memoPy_lvl, lvlH_neg, lvlH_num, ldem, rbp, bp]) (by simp [lvlH_bin, bp])
+    simpa [bareOutPy, WLb] using this.1
+  refine ⟨hr, ?_, ?_, ?_⟩
+  · rw [hr]; exact parse_print _ hwl
+  · simp only [bareOutPy, erase]
+    rw [erase_sumPy]
+    have hacc : tmOfPy nameIx (erase (Py.bin .mul (.neg (.num "1")) (memoPy (nmG o1) .prev)))
+        = some (.bin .mul (.int (-1)) (.memo o1 .prev)) := by
+      simp only [erase, erase_memoPy]
+      exact tmOfPy_bin nameIx .mul _ _ .mul _ _ rfl rfl (by rw [tmOfPy_memo, nameIx_nmG]; rfl)
+    exact tmOfPy_sumPy nameIx nmG nameIx_nmG .prev (o2 :: os) _ _ hacc
+  · obtain ⟨a, b, hab⟩ := sumTm_cons_head (α := String) .prev (.bin .mul (.int (-1)) (.memo o1 .prev)) o2 os
+    rw [hab]
+    simp [netTm]
+
+/-- the smallest instance, evaluated by the kernel: two outflows -/
+example : (parse (renderS (sumSWith false [] ["e1", "e2"]))).map sexp
+    = some "(+ (* (neg (num 1)) (call (attr (name self) memoize) (str e1) (- (name t) (attr (name self) dt)))) (call (attr (name self) memoize) (str e2) (- (name t) (attr (name self) dt))))"
+    ∧ (parse (renderS (sumS [] ["e1", "e2"]))).map sexp
+    = some "(* (neg (num 1)) (+ (call (attr (name self) memoize) (str e1) (- (name t) (attr (name self) dt))) (call (attr (name self) memoize) (str e2) (- (name t) (attr (name self) dt)))))" := by
+  decide +kernel
+
+end builder
+
+#print axioms renderS_sumS
+#print axioms builder_stock_text
+#print axioms builder_sound
+#print axioms bare_outflows_witness
+
 #print axioms xmile_run_eq_euler
 #print axioms C04_full_of_good
 #print axioms C04_partial
